@@ -45,6 +45,8 @@ def raw_value(s):
     if ipart is None:
         ipart, fpart = "", fonly
     fpart = fpart or ""
+    if len((ipart + fpart).lstrip("0")) > 60:
+        return "huge"
     c = int(ipart + fpart)
     if sgn == "-":
         c = -c
@@ -52,7 +54,7 @@ def raw_value(s):
         e = 0
     else:
         ed = edigits.lstrip("0")
-        e = 10 ** 9 if len(ed) > 8 else (int(ed) if ed else 0)
+        e = 10 ** 18 if len(ed) > 18 else (int(ed) if ed else 0)
         if esgn == "-":
             e = -e
     return c, e - len(fpart)
@@ -71,7 +73,7 @@ def check(toks, resp, mode, build):
         if s == "":
             want = "E Empty"
             ok = resp.raw == want
-        elif rv is None:
+        elif rv is None or rv == "huge":
             want = "E <any but Empty>"
             ok = resp.kind == "E" and resp.raw != "E Empty"
         else:
@@ -174,6 +176,10 @@ def split_forms(ds, rng, exps=True):
             a, b = ds[:pos], ds[pos:]
             lit = (a or rng.choice(("", "0"))) + "." + b
             out.append(lit)
+            if not a and exps:
+                # leading fraction zeros, compensated by the exponent
+                for z in (1, 2, rng.randrange(3, 20)):
+                    out.append("%s.%s%se%d" % (rng.choice(("", "0", "000")), "0" * z, b, len(b) + z))
             if exps and b:
                 out.append(lit + "e" + str(len(b)))
                 out.append("-" + lit + "E+" + str(len(b)).rjust(rng.randrange(1, 6), "0"))
@@ -235,6 +241,16 @@ def constructed(rng):
                 lit = ds[:pos] + ch + ds[pos + 1:]
                 out.append("%s %s" % (rng.choice(OPS), E.hexs(lit)))
                 out.append("%s %s" % (rng.choice(OPS), E.hexs("0." + lit)))
+    # systematic SWAR attack: every non-digit ASCII byte (and a few multi-byte characters) substituted at every lane
+    # of an 8-digit block of zeros / nines / mixed digits, in the integer part, after the sign and after the point
+    singles = [chr(b) for b in range(0x00, 0x80) if not (0x30 <= b <= 0x39)] + ["а", "ü", "°", "\u0660"]
+    for base in ("00000000", "99999999", "12345678", "0000000000000000"):
+        for lane in range(len(base)):
+            for ch in singles:
+                body = base[:lane] + ch + base[lane + 1:]
+                k = rng.randrange(4)
+                lit = (body + "5", "-" + body + "12", "0." + body + "7", body + body[::-1] + "1")[k]
+                out.append("%s %s" % (rng.choice(OPS), E.hexs(lit)))
     # lengths around chunk boundaries, pure digits and fraction-only
     for n in list(range(0, 12)) + [15, 16, 17, 23, 24, 25, 31, 32, 33, 38, 39, 40, 41, 47, 48, 80]:
         ds = digits(rng, n, True)
@@ -251,6 +267,18 @@ def constructed(rng):
 _CON = None
 
 
+def huge_literals(rng):
+    """Multi-megabyte literals: zero runs whose length is compensated by an 8-digit exponent (exponent
+    accumulation beyond 2^24), and plain long digit strings."""
+    out = []
+    for z, e, tail in ((16777215, 20000000, "1"), (19999999, 20000000, "125"), (16777216, 16777216, "5"),
+                       (16777300, 16777290, "123")):
+        out.append("0.%s%se%d" % ("0" * z, tail, e))
+    out.append("1" + "0" * 3000000)
+    out.append("0." + "0" * 3000000 + "1")
+    return ["parse " + E.hexs(l) for l in out]
+
+
 def gen(rng, tier, shard, batch):
     global _CON
     reqs = []
@@ -258,6 +286,8 @@ def gen(rng, tier, shard, batch):
         if _CON is None:
             _CON = constructed(random.Random(20260106))
         reqs += _CON[shard::E.NCPU]
+        if shard == 0:
+            reqs += huge_literals(rng)
     for _ in range(N_RANDOM[tier]):
         s = grammar_literal(rng)
         k = rng.random()
